@@ -338,6 +338,7 @@ func ZZ_C01_H4() {
 		}
 	}
 	stream := zz.Choose("stream", 2) == 1
+	editsRequest := zz.Choose("handlerEditsItsRequestHeader", 2) == 1
 	nc := zz.NewNetConn(wire)
 	frag := zz.Range("frag", 1, zz.Param("FRAG", 3))
 	if frag < zz.Param("FRAG", 3) {
@@ -350,6 +351,11 @@ func ZZ_C01_H4() {
 		s.body = string(ctx.Request.Body())
 		seen = append(seen, s)
 		ctx.Response.SetBodyString("r" + string(ctx.Request.RequestURI()))
+		if editsRequest {
+			// a handler that reuses its request object (e.g. for an upstream call) and marks it
+			// "Connection: close": whether the client's connection is kept follows the wire
+			ctx.Request.Header.Set("Connection", "close")
+		}
 	})
 	s := zzNewServer(core)
 	s.StreamRequestBody = stream
